@@ -211,6 +211,9 @@ def case_pluto(mon, jde):
                    error_deg=err))
 
 
+_PRIOR = {"n": 0}
+
+
 def case_minor(mon, q, e, inc, node, argp, T, jde):
     from pymeeus.Epoch import Epoch
     from pymeeus.Minor import Minor
@@ -247,7 +250,11 @@ def case_minor(mon, q, e, inc, node, argp, T, jde):
     # the same orbit loaded with set() into an object that held another one
     # (and was used) must give the same answer
     try:
-        m2 = Minor(2.2091404 * (1 - 0.8502196), 0.8502196, Angle(11.94524),
+        # (the other orbit is elliptic, near-parabolic or parabolic in turn:
+        # each kind takes its own branch and leaves its own state behind)
+        _PRIOR["n"] += 1
+        e_prior = (0.8502196, 0.99, 1.0, 0.985)[_PRIOR["n"] % 4]
+        m2 = Minor(2.2091404 * (1 - 0.8502196), e_prior, Angle(11.94524),
                    Angle(334.75006), Angle(186.23352), Epoch(2448193.04502))
         m2.geocentric_position(Epoch(2448170.5))
         # ... and while that other object is alive and differently loaded,
